@@ -96,7 +96,8 @@ fn mt_sound(prop: &str, rule: &str, sig: &str) -> bool {
         ("C07", "R3") => sig.starts_with("restart_only_changed") || sig.starts_with("recreate_kept") || sig.starts_with("state;") || sig.starts_with("non_restartable_restarted") || sig.starts_with("no_stopped_before_restart"),
         ("C08", "R1") => true,
         ("C10", "R1" | "R3") => true,
-        ("C15", "R1" | "R2" | "R4") => true,
+        ("C15", "R1" | "R4") => true,
+        ("C15", "R2") => !sig.starts_with("c07:"),
         ("C15", "R5") => !sig.starts_with("c09:") || sig.starts_with("c09:R1") || sig.starts_with("c09:R2") || sig.starts_with("c09:R3"),
         ("C15", "R6") => true,
         ("C09", "R1" | "R2" | "R3" | "R4") => true,
